@@ -120,21 +120,33 @@ class Lab:
             t = t[len("tokens-of:"):]
             return t[len("text of "):] if t.startswith("text of ") else t
 
+        def as_result(f, ms):
+            """the measuring step's result in the form the replaced function has: a list, or - when that function is a generator -
+            a generator over the measurements whose return value follows the function's own (recognised) contract"""
+            from .absint import LazyIter, _is_generator
+            fi_ = getattr(f, "fi", None)
+            if fi_ is None or not _is_generator(fi_.node):
+                return ms
+            ret = generator_return_contract(fi_)
+            r = LazyIter(iter(list(ms)))
+            r.holder = {"ret": None if ret is None else sum(m.fields.get("value") for m in ms)}
+            return r
+
         def measured_result(f, args, kwargs):
             self.calls.append(("scan_file", list(args), dict(kwargs)))
             toks = next((a for a in list(args) + list(kwargs.values()) if is_token_list(a)), None)
             if toks is not None:
                 self.analysed.append(self.vfs.abs(path_of_tokens(toks)))
             if not self.deep:
-                return []
+                return as_result(f, [])
             if self.measure_by_path is not None and toks is not None:
-                return self.measure_by_path(it_holder[0], f, self.vfs.abs(path_of_tokens(toks)))
+                return as_result(f, self.measure_by_path(it_holder[0], f, self.vfs.abs(path_of_tokens(toks))))
             if self.measured is not None:
-                return list(self.measured)
+                return as_result(f, list(self.measured))
             from .evalsite import measurement
             m1 = measurement(40, "f", self.prj, (1, 1), (41, 1))
             m2 = measurement(7, "g", self.prj, (50, 1), (57, 1))
-            return [m1, m2]
+            return as_result(f, [m1, m2])
 
         def hook(it, kind, f, args, kwargs, node, cur):
             it_holder[0] = it
@@ -356,6 +368,43 @@ def checksum_eval(prj: Project):
     vfs.bytes["/r/big.py"] = c2
     d2 = it.call(fi, ["/r/big.py"], {})
     return d1, hashlib.md5(c1).hexdigest(), d2, hashlib.md5(c2).hexdigest()
+
+
+def generator_return_contract(fi):
+    """what a measuring generator returns when it is exhausted: None (no value), or 'sum' when every `return` gives 0 or a local
+    that starts at 0 and is increased by exactly the length each yielded measurement is built with.  Anything else: Unknown."""
+    import ast as _ast
+    from .core import local_defs, attr_chain
+    rets = [n for n in fi.walk() if isinstance(n, _ast.Return) and n.value is not None and not (isinstance(n.value, _ast.Constant) and n.value.value is None)]
+    if not rets:
+        return None
+    lengths = set()
+    for n in fi.walk():
+        if isinstance(n, _ast.Yield) and isinstance(n.value, _ast.Call) and (attr_chain(n.value.func) or "").endswith("Measurement"):
+            c = n.value
+            v = c.args[3] if len(c.args) >= 4 else next((k.value for k in c.keywords if k.arg == "value"), None)
+            if not isinstance(v, _ast.Name):
+                raise Unknown("the length a yielded measurement is built with is not a plain local")
+            lengths.add(v.id)
+        elif isinstance(n, (_ast.Yield, _ast.YieldFrom)):
+            raise Unknown("a measuring generator that yields something other than Measurement(...)")
+    if len(lengths) != 1:
+        raise Unknown("a measuring generator with a return value and no single yielded length")
+    ln = next(iter(lengths))
+    for r in rets:
+        if isinstance(r.value, _ast.Constant) and r.value.value == 0:
+            continue
+        if not isinstance(r.value, _ast.Name):
+            raise Unknown("return value of the measuring generator is not understood")
+        defs = local_defs(fi, r.value.id)
+        inits = [v for v, st in defs if isinstance(st, (_ast.Assign, _ast.AnnAssign))]
+        augs = [st for v, st in defs if isinstance(st, _ast.AugAssign)]
+        if len(inits) != 1 or not (isinstance(inits[0], _ast.Constant) and inits[0].value == 0) or len(augs) != 1 or len(defs) != 2:
+            raise Unknown("return value of the measuring generator is not a running total")
+        a = augs[0]
+        if not (isinstance(a.op, _ast.Add) and isinstance(a.value, _ast.Name) and a.value.id == ln):
+            raise Unknown("the running total of the measuring generator is not increased by the yielded length")
+    return "sum"
 
 
 def pipelines(prj: Project):
